@@ -2,8 +2,10 @@
     decodes back to exactly itself.
 
     Families proved here: IPv6 unicast, VPNv4, VPNv6, IPv4/IPv6 labeled unicast (MP_REACH).
-    IPv4 flowspec: model + correspondence + oracle, theorem for the operator lists only
-    (C07_flowspec_operators_roundtrip_partial).  EVPN: not modelled (oracle only).
+    IPv4 flowspec: model + correspondence + oracle; theorem for the operator lists only
+    (C07_flowspec_operators_roundtrip_partial; the full statement is C07_flowspec_roundtrip_statement).
+    EVPN route types 1-4: not modelled; the harness runs the round-trip oracle on the
+    implementation only.
 
     Values: addresses are integers (text rendering is done by netaddr and is canonicalised by
     the harness); [V4 n] / [V6 n] is the version netaddr.IPAddress(int) picks for the decoded
@@ -15,7 +17,7 @@
     build/proposed/c07-1-construct-prefix-v6.diff and c07-2-construct-prefix-v4-zero.diff. *)
 From YV Require Import lib.Base gen.Consts model.YMp model.YPrefix6 model.YLabel model.YVpn model.YLu
   model.YFlow4
-  proof.MpPrefix6Proofs proof.MpLabelProofs proof.MpVpnProofs proof.MpLuProofs.
+  proof.MpPrefix6Proofs proof.MpLabelProofs proof.MpVpnProofs proof.MpLuProofs proof.MpFlow4Proofs.
 
 (** ------------------------------------------------------------------ IPv6 unicast *)
 
@@ -240,3 +242,53 @@ Theorem C07_labeled_unicast_refuted_unreach_v6_not_constructed :
   forall rs, unreachlu_construct true rs = Ok None.
 Proof. exact refuted_lu6_unreach_not_constructed. Qed.
 Print Assumptions C07_labeled_unicast_refuted_unreach_v6_not_constructed.
+
+(** ------------------------------------------------------------------ IPv4 flowspec *)
+
+(** full statement (NOT proved yet): every MP_REACH (1,133) with in-range rules of fewer than
+    240 octets decodes to itself *)
+Definition C07_flowspec_roundtrip_statement : Prop := forall nh fs nlri,
+  (forall a, nh = Some a -> a < 2 ^ 32) -> fs <> [] -> Forall wf_flow fs ->
+  fs_construct fs = Ok nlri -> len nlri <= 65000 ->
+  Forall (fun f => forall b, fs_construct_nlri f = Ok b -> len b <= 240) fs ->
+  exists v, reachfs_construct nh fs =
+              Ok (Some ([c_ATTR_MpReachNLRI_FLAG; c_ATTR_MpReachNLRI_ID] ++ be 2 (len v) ++ v)) /\
+            reachfs_parse v = Ok (option_map V4 nh, map expect_flow fs).
+
+(** proved part: the numeric-operator list of one component (comparisons =, <, >, <=, >= on values
+    of 1, 2 or 4 octets, any number of OR-ed items) encodes and decodes to itself and the decoder
+    reports the number of octets it consumed (+1, as parse_operators does).  Missing for the full
+    statement: prefix components, the component loop (dict assembly), the rule length framing
+    and the attribute framing - these are covered by the model/implementation correspondence and
+    the oracle only. *)
+Theorem C07_flowspec_operators_roundtrip_partial : forall ops, ops <> [] -> Forall wf_op ops ->
+  exists b, fs_construct_ops ops = Ok b /\
+            forall rest fuel, (length b < fuel)%nat ->
+              fs_parse_ops fuel (b ++ rest) = Ok (map expect_pop ops, S (length b)).
+Proof. exact fs_ops_roundtrip. Qed.
+Print Assumptions C07_flowspec_operators_roundtrip_partial.
+
+Example C07_flowspec_nonvacuous :
+  Forall wf_op [(1, 80); (3, 8080); (5, 4000000000)] /\
+  fs_construct_ops [(1, 80); (3, 8080); (5, 4000000000)] = Ok [1; 80; 19; 31; 144; 165; 238; 107; 40; 0].
+Proof.
+  split; [|vm_compute; reflexivity].
+  constructor; [split; [reflexivity | left; reflexivity]|].
+  constructor; [split; [reflexivity | left; reflexivity]|].
+  constructor; [split; [reflexivity | right; split; [discriminate | reflexivity]]|]. constructor.
+Qed.
+
+(** defects *)
+Theorem C07_flowspec_refuted_three_octet_value : fs_construct_ops [(1, 65536)] = Exc.
+Proof. exact refuted_three_octet_value. Qed.
+Print Assumptions C07_flowspec_refuted_three_octet_value.
+
+Theorem C07_flowspec_refuted_prefix_length_zero : fs_construct_prefix (0, 0) = Exc.
+Proof. exact refuted_prefix_length_zero. Qed.
+Print Assumptions C07_flowspec_refuted_prefix_length_zero.
+
+Theorem C07_flowspec_refuted_tcp_flags_dropped :
+  fs_construct_nlri (mk_flow (Some (167772160, 8)) None [(9, [(1, 2)])]) = Ok [3; 1; 8; 10] /\
+  fs_parse_all [3; 1; 8; 10] = Ok [[(1, CPfx (167772160, 8))]].
+Proof. exact refuted_tcp_flags_dropped. Qed.
+Print Assumptions C07_flowspec_refuted_tcp_flags_dropped.
